@@ -12,9 +12,9 @@ package main
 // model (QuaiVerif.Model.Crash) reasons about; the harness reports the recorded schedule in the model's terms.
 
 import (
-	"os"
 	"bytes"
 	"fmt"
+	"os"
 	"strings"
 	"sync"
 
